@@ -824,8 +824,8 @@ func lastStoreBefore(a *ssa.Alloc, ld *ssa.UnOp) ssa.Value {
 // exit paths; rules about "the return taken when …" quantify over exit paths.
 type exitPath struct {
 	ret   *ssa.Return
-	facts []Fact      // what holds on this path
-	vals  []ssa.Value // the result values on this path
+	facts []Fact            // what holds on this path
+	vals  []ssa.Value       // the result values on this path
 	via   []*ssa.BasicBlock // the blocks the path is known to come through (the incoming edges chosen at merges)
 }
 
